@@ -80,7 +80,7 @@ func (g *jsgen) fn(d int, params, ret string) string {
 	return fmt.Sprintf("function(%s){ %s return %s; }", params, g.blk(d), ret)
 }
 
-const nStmtKinds = 48
+const nStmtKinds = 50
 
 func (g *jsgen) stmt(d int) string {
 	l0 := len(g.ctxStack)
@@ -413,6 +413,21 @@ func (g *jsgen) stmt2(k, d int) string {
 		default:
 			g.use("native-reentry:New")
 			return fmt.Sprintf("NN(function(){ %s });", g.blk(d))
+		}
+	case 48:
+		g.use("array-join/toString-recursion-guard")
+		return fmt.Sprintf("r += [{ toString(){ %s return 'a'; } }, [1, { toString(){ r += %s; return 'b'; } }]].join().length;", g.blk(d), g.p())
+	case 49:
+		switch g.t.Draw(3) {
+		case 0:
+			g.use("JSON.stringify-replacer")
+			return fmt.Sprintf("JSON.stringify({ a: 1, b: [2, { c: 3 }] }, %s);", g.fn(d, "k, v", "v"))
+		case 1:
+			g.use("Object.defineProperties-getter-descriptor")
+			return fmt.Sprintf("Object.defineProperties({}, { a: { get value(){ %s return 1; } } });", g.blk(d))
+		default:
+			g.use("String.prototype.split-Symbol.split")
+			return fmt.Sprintf("r += 'a,b'.split({ [Symbol.split](s, l){ %s return [1, 2]; } }).length;", g.blk(d))
 		}
 	case 46, 47:
 		// constructor activations (their new.target / this / home object registers must be unwound like everything else)
